@@ -708,6 +708,11 @@ pub fn check_traits(_ctx: &Ctx, c: &TraitCase, acc: &mut Acc) -> Result<(), Fail
     for ver in ["0.2", "0.3"] {
         let mut q = Packet::new();
         q.add_option(CoapOption::from(3), vec![1]);
+        if c.trunc % 2 == 1 {
+            // a payload from before: set_payload replaces it, also by nothing
+            q.payload = vec![0xEE; 1 + c.trunc as usize % 9];
+            acc.class("trait-writers-over-a-previous-payload");
+        }
         let mut expect_opts = vec![(3u16, vec![1u8])];
         expect_opts.extend(m.options.iter().cloned());
         expect_opts.sort_by_key(|o| o.0);
